@@ -17,6 +17,17 @@ Failed(r) ==
        \cup Clause("aes_key_iv_layout", r.key_ab = AesKey(ka.enc, sum) /\ r.iv_ab = AesIv(ka.enc, sum)
                                         /\ SubSeq(r.pab, 65, Len(r.pab)) = r.ref_ab /\ Len(r.pab) = 64 + Len(r.plain))
        \cup Clause("decrypts_back", r.decb = r.plain /\ r.deca = r.plain)
+      \* a sequence of packets on one channel pair, all held until the end: a packet is a value - producing later packets does not
+      \* change it - and each one carries the key id its receiver expects and the SHA-256 of its own plaintext, and decrypts to it
+      [] r.op = "chan_seq" ->
+            LET ka == ChannelKeys(r.ida, r.idb, r.shared)
+                kb == ChannelKeys(r.idb, r.ida, r.shared) IN
+            Clause("held_packet_changed_by_later_encryption", \A i \in 1..Len(r.events) : r.events[i].later = r.events[i].now)
+       \cup Clause("packet_header", \A i \in 1..Len(r.events) :
+                       LET e == r.events[i] IN
+                       Len(e.later) = 64 + Len(e.plain)
+                       /\ SubSeq(e.later, 1, 64) = PacketHeader(IF e.frm = "A" THEN ka.enc ELSE kb.enc, e.plain))
+       \cup Clause("decrypts_back", \A i \in 1..Len(r.events) : r.events[i].dec = r.events[i].plain)
       [] r.op = "sig" -> Clause("verify_iff_genuine", r.verified = r.genuine) \cup Clause("signature_is_64_bytes", r.siglen = 64)
       [] r.op = "mnemonic_rule" -> Clause("mnemonic_validity_follows_the_seed_rule", r.libvalid = r.rule)
       [] r.op = "derive" ->
